@@ -16,9 +16,15 @@ Gen/Crc16.vos Gen/Crc16.vok Gen/Crc16.required_vos: Gen/Crc16.v
 Gen/Crc64.vo Gen/Crc64.glob Gen/Crc64.v.beautified Gen/Crc64.required_vo: Gen/Crc64.v 
 Gen/Crc64.vio: Gen/Crc64.v 
 Gen/Crc64.vos Gen/Crc64.vok Gen/Crc64.required_vos: Gen/Crc64.v 
+Gen/Resp.vo Gen/Resp.glob Gen/Resp.v.beautified Gen/Resp.required_vo: Gen/Resp.v 
+Gen/Resp.vio: Gen/Resp.v 
+Gen/Resp.vos Gen/Resp.vok Gen/Resp.required_vos: Gen/Resp.v 
 Model/Digest.vo Model/Digest.glob Model/Digest.v.beautified Model/Digest.required_vo: Model/Digest.v Base/Bytes.vo Base/Table.vo Base/Endian.vo Spec/Crc64.vo Gen/Crc64.vo
 Model/Digest.vio: Model/Digest.v Base/Bytes.vio Base/Table.vio Base/Endian.vio Spec/Crc64.vio Gen/Crc64.vio
 Model/Digest.vos Model/Digest.vok Model/Digest.required_vos: Model/Digest.v Base/Bytes.vos Base/Table.vos Base/Endian.vos Spec/Crc64.vos Gen/Crc64.vos
+Model/RespCodec.vo Model/RespCodec.glob Model/RespCodec.v.beautified Model/RespCodec.required_vo: Model/RespCodec.v Base/Bytes.vo Base/Dec.vo Gen/Resp.vo
+Model/RespCodec.vio: Model/RespCodec.v Base/Bytes.vio Base/Dec.vio Gen/Resp.vio
+Model/RespCodec.vos Model/RespCodec.vok Model/RespCodec.required_vos: Model/RespCodec.v Base/Bytes.vos Base/Dec.vos Gen/Resp.vos
 Model/Slot.vo Model/Slot.glob Model/Slot.v.beautified Model/Slot.required_vo: Model/Slot.v Base/Bytes.vo Base/Dec.vo Spec/Crc16.vo Spec/Slot.vo Gen/Crc16.vo Model/SlotKeys.vo
 Model/Slot.vio: Model/Slot.v Base/Bytes.vio Base/Dec.vio Spec/Crc16.vio Spec/Slot.vio Gen/Crc16.vio Model/SlotKeys.vio
 Model/Slot.vos Model/Slot.vok Model/Slot.required_vos: Model/Slot.v Base/Bytes.vos Base/Dec.vos Spec/Crc16.vos Spec/Slot.vos Gen/Crc16.vos Model/SlotKeys.vos
@@ -31,6 +37,9 @@ Proofs/Crc64Proofs.vos Proofs/Crc64Proofs.vok Proofs/Crc64Proofs.required_vos: P
 Proofs/DigestProofs.vo Proofs/DigestProofs.glob Proofs/DigestProofs.v.beautified Proofs/DigestProofs.required_vo: Proofs/DigestProofs.v Base/Bytes.vo Base/Table.vo Base/Endian.vo Spec/Crc64.vo Gen/Crc64.vo Model/Digest.vo Proofs/Crc64Proofs.vo
 Proofs/DigestProofs.vio: Proofs/DigestProofs.v Base/Bytes.vio Base/Table.vio Base/Endian.vio Spec/Crc64.vio Gen/Crc64.vio Model/Digest.vio Proofs/Crc64Proofs.vio
 Proofs/DigestProofs.vos Proofs/DigestProofs.vok Proofs/DigestProofs.required_vos: Proofs/DigestProofs.v Base/Bytes.vos Base/Table.vos Base/Endian.vos Spec/Crc64.vos Gen/Crc64.vos Model/Digest.vos Proofs/Crc64Proofs.vos
+Proofs/RespProofs.vo Proofs/RespProofs.glob Proofs/RespProofs.v.beautified Proofs/RespProofs.required_vo: Proofs/RespProofs.v Base/Bytes.vo Base/Dec.vo Gen/Resp.vo Model/RespCodec.vo
+Proofs/RespProofs.vio: Proofs/RespProofs.v Base/Bytes.vio Base/Dec.vio Gen/Resp.vio Model/RespCodec.vio
+Proofs/RespProofs.vos Proofs/RespProofs.vok Proofs/RespProofs.required_vos: Proofs/RespProofs.v Base/Bytes.vos Base/Dec.vos Gen/Resp.vos Model/RespCodec.vos
 Proofs/SlotProofs.vo Proofs/SlotProofs.glob Proofs/SlotProofs.v.beautified Proofs/SlotProofs.required_vo: Proofs/SlotProofs.v Base/Bytes.vo Base/Dec.vo Spec/Crc16.vo Spec/Slot.vo Gen/Crc16.vo Model/Slot.vo Proofs/SlotWitness.vo Proofs/SlotWitnessCheck.vo
 Proofs/SlotProofs.vio: Proofs/SlotProofs.v Base/Bytes.vio Base/Dec.vio Spec/Crc16.vio Spec/Slot.vio Gen/Crc16.vio Model/Slot.vio Proofs/SlotWitness.vio Proofs/SlotWitnessCheck.vio
 Proofs/SlotProofs.vos Proofs/SlotProofs.vok Proofs/SlotProofs.required_vos: Proofs/SlotProofs.v Base/Bytes.vos Base/Dec.vos Spec/Crc16.vos Spec/Slot.vos Gen/Crc16.vos Model/Slot.vos Proofs/SlotWitness.vos Proofs/SlotWitnessCheck.vos
@@ -40,6 +49,9 @@ Proofs/SlotWitness.vos Proofs/SlotWitness.vok Proofs/SlotWitness.required_vos: P
 Proofs/SlotWitnessCheck.vo Proofs/SlotWitnessCheck.glob Proofs/SlotWitnessCheck.v.beautified Proofs/SlotWitnessCheck.required_vo: Proofs/SlotWitnessCheck.v Base/Bytes.vo Base/Dec.vo Spec/Crc16.vo Spec/Slot.vo Gen/Crc16.vo Model/SlotKeys.vo Proofs/SlotWitness.vo
 Proofs/SlotWitnessCheck.vio: Proofs/SlotWitnessCheck.v Base/Bytes.vio Base/Dec.vio Spec/Crc16.vio Spec/Slot.vio Gen/Crc16.vio Model/SlotKeys.vio Proofs/SlotWitness.vio
 Proofs/SlotWitnessCheck.vos Proofs/SlotWitnessCheck.vok Proofs/SlotWitnessCheck.required_vos: Proofs/SlotWitnessCheck.v Base/Bytes.vos Base/Dec.vos Spec/Crc16.vos Spec/Slot.vos Gen/Crc16.vos Model/SlotKeys.vos Proofs/SlotWitness.vos
+Props/C10.vo Props/C10.glob Props/C10.v.beautified Props/C10.required_vo: Props/C10.v Base/Bytes.vo Base/Dec.vo Gen/Resp.vo Model/RespCodec.vo Proofs/RespProofs.vo
+Props/C10.vio: Props/C10.v Base/Bytes.vio Base/Dec.vio Gen/Resp.vio Model/RespCodec.vio Proofs/RespProofs.vio
+Props/C10.vos Props/C10.vok Props/C10.required_vos: Props/C10.v Base/Bytes.vos Base/Dec.vos Gen/Resp.vos Model/RespCodec.vos Proofs/RespProofs.vos
 Props/C11.vo Props/C11.glob Props/C11.v.beautified Props/C11.required_vo: Props/C11.v Base/Bytes.vo Base/Endian.vo Spec/Crc64.vo Gen/Crc64.vo Model/Digest.vo Proofs/Crc64Proofs.vo Proofs/DigestProofs.vo
 Props/C11.vio: Props/C11.v Base/Bytes.vio Base/Endian.vio Spec/Crc64.vio Gen/Crc64.vio Model/Digest.vio Proofs/Crc64Proofs.vio Proofs/DigestProofs.vio
 Props/C11.vos Props/C11.vok Props/C11.required_vos: Props/C11.v Base/Bytes.vos Base/Endian.vos Spec/Crc64.vos Gen/Crc64.vos Model/Digest.vos Proofs/Crc64Proofs.vos Proofs/DigestProofs.vos
